@@ -148,7 +148,26 @@ func genProps(r *sim.Rng, lzma2 bool) (lc, lp, pb int, none bool) {
 }
 
 func genBufSize(r *sim.Rng) int {
+	if r.Chance(1, 4) {
+		// any legal look-ahead size, log-uniform, so that no relation between
+		// BufSize, DictCap and the 64 KiB chunk size goes unvisited
+		return logUniform(r, 273, 70000)
+	}
 	return sim.Pick(r, []int{273, 273, 274, 300, 1000, 4096, 4096, 0, 65536, 5000})
+}
+
+// logUniform draws from [lo, hi] with roughly equal weight per octave.
+func logUniform(r *sim.Rng, lo, hi int) int {
+	bits := 0
+	for v := hi / lo; v > 0; v >>= 1 {
+		bits++
+	}
+	span := lo << r.Intn(bits)
+	v := span + r.Intn(span)
+	if v > hi {
+		v = lo + r.Intn(hi-lo+1)
+	}
+	return v
 }
 
 // genDictCap draws a dictionary capacity; big permits the 8 MiB default and
@@ -164,6 +183,13 @@ func genDictCap(r *sim.Rng, bufSize int, big bool) int {
 		opts = append(opts, 1<<20, 1<<20+1, 0, 3<<20, 1<<21)
 	}
 	d := sim.Pick(r, opts)
+	if r.Chance(1, 4) {
+		hi := 300000
+		if big {
+			hi = 4 << 20
+		}
+		d = logUniform(r, 4096, hi)
+	}
 	if d != 0 && d < 4096 {
 		d = 4096
 	}
@@ -278,6 +304,63 @@ func maxPayloadFor(matcher byte, blockSize int64, dictCap int, want int) int {
 		}
 	}
 	return m
+}
+
+// hugeProfile decides whether a writer case uses the > 2 MiB profile, the only
+// one that reaches the 2 MiB uncompressed limit of an LZMA2 chunk: one run in
+// thoroughOdds in the thorough tier and a handful per quick batch.
+func hugeProfile(r *sim.Rng, tier string, thoroughOdds int) bool {
+	switch tier {
+	case "thorough":
+		return r.Chance(1, thoroughOdds)
+	case "quick":
+		return r.Chance(1, 3000)
+	}
+	return false // "src": the case only serves as a stream source of a fault engine
+}
+
+// hugePayload is the payload of the > 2 MiB profile: a compressible stretch
+// longer than the 2 MiB chunk limit, then incompressible and text segments.
+// The quick tier keeps the expensive (incompressible) part short.
+func hugePayload(r *sim.Rng, tier string, max int) sim.Payload {
+	if tier == "thorough" {
+		return sim.Payload{Kind: "concat", Parts: []sim.Payload{
+			{Kind: "zeros", N: max / 2},
+			{Kind: "prng", N: max / 4, Seed: r.Uint64()},
+			{Kind: "text", N: max / 4, Seed: r.Uint64()},
+		}}
+	}
+	lead := sim.Payload{Kind: "zeros", N: max * 9 / 10}
+	if r.Bool() {
+		lead = sim.Payload{Kind: "run", N: max * 9 / 10, A: r.Intn(256)}
+	}
+	return sim.Payload{Kind: "concat", Parts: []sim.Payload{
+		lead,
+		{Kind: "prng", N: max / 40, Seed: r.Uint64()},
+		{Kind: "text", N: max / 20, Seed: r.Uint64()},
+	}}
+}
+
+// btLongPayload gives the BinaryTree matcher inputs longer than the 16 KiB cap
+// of maxPayloadFor: the tree only degenerates on repetitive data, so
+// incompressible stretches (with a duplicate or a short text island, so that
+// long-distance matches and ring wrap still occur) stay cheap.
+func btLongPayload(r *sim.Rng, want int) sim.Payload {
+	if want > 300<<10 {
+		want = 300 << 10
+	}
+	n := r.Range(17<<10, want)
+	switch r.Intn(3) {
+	case 0:
+		return sim.Payload{Kind: "prng", N: n, Seed: r.Uint64()}
+	case 1:
+		return sim.Payload{Kind: "dup", Parts: []sim.Payload{{Kind: "prng", N: n / 2, Seed: r.Uint64()}}}
+	}
+	return sim.Payload{Kind: "concat", Parts: []sim.Payload{
+		{Kind: "prng", N: n / 2, Seed: r.Uint64()},
+		{Kind: "text", N: r.Range(0, 3000), Seed: r.Uint64()},
+		{Kind: "prng", N: n / 2, Seed: r.Uint64()},
+	}}
 }
 
 // ---- guarded calls into the library ----
